@@ -33,6 +33,41 @@ func IsMustCompile(info *types.Info, call *ast.CallExpr) bool {
 	return fn.Name() == "MustCompile" || fn.Name() == "Compile" || fn.Name() == "MustCompilePOSIX"
 }
 
+// isCompileWrapper: call of a function of the same package whose whole body is `return regexp.MustCompile(p)`, p being
+// its only parameter (a wrapper a refactoring may put around the package-level patterns).
+func isCompileWrapper(pkg *packages.Package, call *ast.CallExpr) bool {
+	fn, _ := typeutil.Callee(pkg.TypesInfo, call).(*types.Func)
+	if fn == nil || fn.Pkg() != pkg.Types {
+		return false
+	}
+	for _, f := range pkg.Syntax {
+		for _, d := range f.Decls {
+			fd, ok := d.(*ast.FuncDecl)
+			if !ok || pkg.TypesInfo.Defs[fd.Name] != types.Object(fn) || fd.Body == nil || fd.Recv != nil {
+				continue
+			}
+			if len(fd.Body.List) != 1 || fd.Type.Params == nil || len(fd.Type.Params.List) != 1 || len(fd.Type.Params.List[0].Names) != 1 {
+				return false
+			}
+			ret, ok := fd.Body.List[0].(*ast.ReturnStmt)
+			if !ok || len(ret.Results) != 1 {
+				return false
+			}
+			inner, ok := ast.Unparen(ret.Results[0]).(*ast.CallExpr)
+			if !ok || len(inner.Args) != 1 {
+				return false
+			}
+			callee, _ := typeutil.Callee(pkg.TypesInfo, inner).(*types.Func)
+			if callee == nil || callee.Pkg() == nil || callee.Pkg().Path() != "regexp" || callee.Name() != "MustCompile" {
+				return false
+			}
+			id, ok := ast.Unparen(inner.Args[0]).(*ast.Ident)
+			return ok && pkg.TypesInfo.Uses[id] == pkg.TypesInfo.Defs[fd.Type.Params.List[0].Names[0]]
+		}
+	}
+	return false
+}
+
 // ConstString folds e to a string constant if possible.
 func ConstString(info *types.Info, e ast.Expr) (string, bool) {
 	tv, ok := info.Types[e]
@@ -58,7 +93,7 @@ func RegexpVars(pkg *packages.Package) []*Var {
 				}
 				for i, name := range vs.Names {
 					call, ok := ast.Unparen(vs.Values[i]).(*ast.CallExpr)
-					if !ok || !IsMustCompile(pkg.TypesInfo, call) || len(call.Args) != 1 {
+					if !ok || len(call.Args) != 1 || !(IsMustCompile(pkg.TypesInfo, call) || isCompileWrapper(pkg, call)) {
 						continue
 					}
 					v := &Var{Name: name.Name, Pkg: pkg.PkgPath, Obj: pkg.TypesInfo.Defs[name], Pos: name.Pos()}
